@@ -488,7 +488,13 @@ func (c *Ctx) checkLoopAccumulation(rule string, m *core.Module, l *mapLoop, bas
 				verdict, why = "escapes", "output is written to a writer that outlives the loop while iterating a map: the order of the emitted text is the map's iteration order and differs between runs"
 			}
 		} else {
+			c.msgIsErrorText = false
 			verdict, why = c.accumulationFlow(m, l, s.obj)
+			if verdict == "message" && c.msgIsErrorText {
+				// the text of a returned error is the result of the call that is refused (all there is of it, for
+				// Validate and the compatibility check): a list in map order makes it differ from call to call
+				verdict, why = "escapes", "the accumulated value becomes part of the text of a returned error without passing through a total-order sort: the same input is refused with a different error from call to call (sort the list, as the enum does)"
+			}
 		}
 		p := m.InstrPos(s.at)
 		switch verdict {
@@ -849,6 +855,7 @@ func (c *Ctx) onlyMsg(m *core.Module, in ssa.Instruction, seen map[ssa.Instructi
 		n := core.StaticCalleeName(&x.Call)
 		switch n {
 		case "fmt.Errorf", "errors.New":
+			c.msgIsErrorText = true
 			return true
 		case "fmt.Sprintf", "strings.Join", "fmt.Sprint":
 			return follow(x)
@@ -875,6 +882,9 @@ func (c *Ctx) onlyMsg(m *core.Module, in ssa.Instruction, seen map[ssa.Instructi
 			}
 		case *ssa.FieldAddr:
 			if f := structField(a.X.Type(), a.Field); f != nil && f.Name() == "Message" {
+				if strings.HasSuffix(typeStr(a.X.Type()), "ConstraintError") {
+					c.msgIsErrorText = true
+				}
 				return true
 			}
 		case *ssa.Alloc:
